@@ -38,6 +38,10 @@ def mc_job(rep, module, cfg, expect_violation=None, workers=16, env=None):
         rep.notes.append('%s/%s violates %s as expected' % (module, cfg, expect_violation))
 
 
+def check_C07(rep, known):
+    scen_job(rep, 'ScenShoot', 'C07', [r'C07\.', r'build', r'varmap'], known)
+
+
 def check_C06(rep, known):
     scen_job(rep, 'ScenShoot', 'C06', [r'C06\.', r'build', r'varmap'], known)
     mc_job(rep, 'MC_Grids', 'MC_Grids_ideal.cfg')
@@ -92,5 +96,5 @@ def check_C18(rep, known):
     life_job(rep, [r'C18\.', r'C13\.d:outcome@\d+:save'], known)
 
 
-CHECKS = {'C02': check_C02, 'C06': check_C06, 'C01': check_C01, 'C04': check_C04, 'C05': check_C05, 'C13': check_C13, 'C18': check_C18, 'C09': check_C09, 'C10': check_C10}
+CHECKS = {'C07': check_C07, 'C02': check_C02, 'C06': check_C06, 'C01': check_C01, 'C04': check_C04, 'C05': check_C05, 'C13': check_C13, 'C18': check_C18, 'C09': check_C09, 'C10': check_C10}
 ENGINE = {p: ['life', 'replay'] for p in ('C13', 'C18', 'C09', 'C10')}
